@@ -23,8 +23,10 @@ import (
 	"fmt"
 
 	"seata.apache.org/seata-go/pkg/datasource/sql/exec"
+	"seata.apache.org/seata-go/pkg/datasource/sql/parser"
 	"seata.apache.org/seata-go/pkg/datasource/sql/types"
 	"seata.apache.org/seata-go/pkg/datasource/sql/util"
+	"seata.apache.org/seata-go/pkg/tm"
 )
 
 type Stmt struct {
@@ -33,7 +35,21 @@ type Stmt struct {
 	txCtx *types.TransactionContext
 	query string
 	stmt  driver.Stmt
+	// owner is the AT / XA connection the statement was prepared on. Inside a
+	// global transaction the statement has to take that connection's path
+	// (branch, local transaction, images, undo log), which only the connection
+	// knows: the prepared text is executed through it
+	owner stmtOwner
 }
+
+// stmtOwner is the part of an AT / XA connection a prepared statement needs
+type stmtOwner interface {
+	ExecContext(ctx context.Context, query string, args []driver.NamedValue) (driver.Result, error)
+	queryWith(ctx context.Context, query string, args []driver.NamedValue, run queryRunner) (driver.Rows, error)
+}
+
+// queryRunner runs a query on the target connection
+type queryRunner func(ctx context.Context, query string, args []driver.NamedValue) (driver.Rows, error)
 
 // Close closes the statement.
 //
@@ -100,9 +116,19 @@ func (s *Stmt) Query(args []driver.Value) (rows driver.Rows, err error) {
 func (s *Stmt) QueryContext(ctx context.Context, args []driver.NamedValue) (rows driver.Rows, err error) {
 	defer recoverStmtPanic(&err)
 
+	// a locking read asks the coordinator first (a plain query needs nothing
+	// from the connection and keeps the prepared statement's own path)
 	stmt, ok := s.stmt.(driver.StmtQueryContext)
 	if !ok {
 		return nil, driver.ErrSkip
+	}
+
+	if s.owner != nil && tm.IsGlobalTx(ctx) {
+		if pc, perr := parser.DoParser(s.query); perr == nil && pc.SQLType == types.SQLTypeSelectForUpdate {
+			return s.owner.queryWith(ctx, s.query, args, func(ctx context.Context, _ string, a []driver.NamedValue) (driver.Rows, error) {
+				return stmt.QueryContext(ctx, a)
+			})
+		}
 	}
 
 	executor, err := exec.BuildExecutor(s.res.dbType, s.txCtx.TransactionMode, s.query)
@@ -173,6 +199,10 @@ func (s *Stmt) Exec(args []driver.Value) (result driver.Result, err error) {
 // ExecContext must honor the context timeout and return when it is canceled.
 func (s *Stmt) ExecContext(ctx context.Context, args []driver.NamedValue) (result driver.Result, err error) {
 	defer recoverStmtPanic(&err)
+
+	if s.owner != nil && tm.IsGlobalTx(ctx) {
+		return s.owner.ExecContext(ctx, s.query, args)
+	}
 
 	stmt, ok := s.stmt.(driver.StmtExecContext)
 	if !ok {
